@@ -102,6 +102,14 @@ def stepSumTree (s : Store) (op : String) (args : List String) : Store × String
     | none => (s, "bad-op")
   | "total", [] => (s, showOptInt (total s))
   | "iter", [] => (s, " ".intercalate ("ok" :: (iterate s).map showKV))
+  | "iter", [b, e] =>
+    match parseKey b, parseKey e with
+    | some b, some e => (s, " ".intercalate ("ok" :: (iterRange s b e).map showKV))
+    | _, _ => (s, "bad-op")
+  | "riter", [b, e] =>
+    match parseKey b, parseKey e with
+    | some b, some e => (s, " ".intercalate ("ok" :: (iterRangeRev s b e).map showKV))
+    | _, _ => (s, "bad-op")
   | "dump", [] => (s, dump s)
   | _, _ => (s, "bad-op")
 
